@@ -563,4 +563,67 @@ def runAntismash (r : RunIn) : PrepOut :=
   let out := runTail r'
   ⟨s.2 ++ out.trace ++ (if out.err == some inputError then [.logErr] else []), out.err, out.target⟩
 
+
+/-! ### every option `run_antismash` / `_run_antismash` reads before or around the file effects -/
+
+/-- the options (and the two environment facts their handling consults) in the order the code reads them -/
+structure RunOpts where
+  /-- `--list-plugins`: print and return 0 before anything else -/
+  listPlugins : Bool
+  /-- `--check-prereqs`: check, print, return 0 / 1 -/
+  checkPrereqsOnly : Bool
+  /-- environment: `check_prerequisites` does not raise `RuntimeError` -/
+  prereqsOk : Bool
+  /-- `--profiling` -/
+  profile : Bool
+  /-- environment: `verify_options` returns `True` -/
+  optionsValid : Bool
+  /-- at least one module is enabled (otherwise `ValueError`) -/
+  anyModule : Bool
+  /-- `--debug` / `--verbose`: log level only (and `log_module_runtimes`); they change the log's text,
+      which is not modelled, and nothing else -/
+  debug : Bool
+  verbose : Bool
+deriving Repr, Inhabited, DecidableEq
+
+structure RunOut where
+  out : PrepOut
+  /-- the return value, when the run returns -/
+  code : Option Nat
+deriving Repr, DecidableEq
+
+def profBinName : String := "profiling_results.bin"
+def profTxtName : String := "profiling_results"
+def profBin : Tok := .raw "<profile data>"
+def profTxt : Tok := .raw "<profile report>"
+
+/-- `write_profiling_results(profiler, output_dir/profiling_results)`: `stats.dump_stats(target + ".bin")`,
+    then `open(target, "w")` and `write` -/
+def writeProfilingResults (d : Dir) : List Ev × Dir :=
+  ([.openW profBinName, .write profBinName, .openW profTxtName, .write profTxtName],
+   (((d.openW profBinName).append profBinName [profBin]).openW profTxtName).append profTxtName [profTxt])
+
+/-- `run_antismash(sequence_file, options)` with every early exit of `_run_antismash`:
+    logging is set up; `--list-plugins`; `--check-prereqs`; `check_prerequisites`; (the profiler is
+    started — no file effect); `verify_options`; "no modules enabled"; then the tail modelled by `runTail`;
+    profiling results are written only by a run that got through `write_outputs` -/
+def runFull (o : RunOpts) (r : RunIn) : RunOut :=
+  let p := (effective r.call).1
+  let s := setupLogging (logPlace p) p.target
+  if o.listPlugins then ⟨⟨s.2, Option.none, s.1⟩, some 0⟩
+  else if o.checkPrereqsOnly then ⟨⟨s.2, Option.none, s.1⟩, some (if o.prereqsOk then 0 else 1)⟩
+  else if !o.prereqsOk then ⟨⟨s.2, some "RuntimeError", s.1⟩, Option.none⟩
+  else if !o.optionsValid then ⟨⟨s.2, Option.none, s.1⟩, some 1⟩
+  else if !o.anyModule then ⟨⟨s.2, some "ValueError", s.1⟩, Option.none⟩
+  else
+    let out := runTail { r with call := { r.call with target := s.1 } }
+    match out.err, out.target with
+    | some e, t => ⟨⟨s.2 ++ out.trace ++ (if e == inputError then [.logErr] else []), some e, t⟩, Option.none⟩
+    | Option.none, .dir es =>
+      if o.profile then
+        let w := writeProfilingResults es
+        ⟨⟨s.2 ++ out.trace ++ w.1, Option.none, .dir w.2⟩, some 0⟩
+      else ⟨⟨s.2 ++ out.trace, Option.none, .dir es⟩, some 0⟩
+    | Option.none, t => ⟨⟨s.2 ++ out.trace, Option.none, t⟩, some 0⟩   -- unreachable (`accepted_is_directory`)
+
 end ASV.WriteSafety
